@@ -76,13 +76,18 @@ CHECKS = {
    note=NOTE_COMMON + 'PARTIAL: "a successful fit is finite" is floating point and checked only by the hostile.fits stream; partial_dependence deliberately checks only the requested term\'s own categories (entry_rejects_category_partial with witness).',
    technique='Lean 4 theorems (list induction, finite case split over the entry-point table) + exhaustive exception-class correspondence',
    ref='7/C11'),
+ 'C15': dict(
+   text='Theorems about a heap model of models, term / distribution / log objects and caller-held expressions (step : World -> Op -> World x Out for construct, fit, queries, sample, gridsearch, set_params, deepcopy): after every finite history no two models share a mutable object (nor with an expression); queries, sample and gridsearch(keep_best=False) leave every model unchanged; fit is history-free (the fit binding after any history equals that of a fresh model with the same settings on the same data; compile overwrites all data-dependent term state); calls on one model leave every other model unchanged; keep_best copies by value and a later fit of self leaves the winner unchanged; predictions are row-wise. Tied to /repo by random histories over 2-3 models built from shared expressions and 2-3 data sets run on real objects and on the model (per-op summaries exact), bit-identical state digests of every other model around every call, a fresh-fit oracle for every fit and grid-search candidate, caller-array immutability over dtypes / layouts, and row-subset / permutation checks.',
+   note=NOTE_COMMON + 'NumPy aliasing of caller arrays and the row-wise evaluation of the numerical code are outside the model (harness-only streams); failed calls other than AttributeError-before-fit, tensor terms and constructor plurals are outside the heap model.',
+   technique='Lean 4 theorems (invariant over operation histories, frame rules) + history-based differential correspondence',
+   ref='7/C15'),
  'C16': dict(
    text='Theorems for every data row, term configuration and term list: intercept = 1, linear = raw feature, spline = basis row x by-variable, factor = indicator of the category under the knots compile derives (dummy coding drops the first), tensor = row-wise Kronecker product with the last marginal fastest (row-major index), model matrix = concatenation in term order, coefficient index blocks contiguous, ordered (disjoint) and covering. Tied to /repo by exact rational comparison of model rows with TermList.build_columns / term.build_columns / get_coef_indices on random term programs with query data different from the training data, plus a NumPy oracle of the documented rule.',
    note=NOTE_COMMON + 'Spline columns are those of C03 (same model function); order-0 / cyclic spline features are not sampled within 1e-6 of a jump.',
    technique='Lean 4 theorems (list induction, Nat div/mod index algebra, C03 basis lemmas) + exact-rational differential correspondence on random term programs',
    ref='7/C16'),
 }
-PENDING = ['C08','C12','C13','C14','C15']
+PENDING = ['C08','C12','C13','C14']
 
 def main():
     checks = []
